@@ -630,7 +630,8 @@ func (b *backend) pathRotateDeltaCRLRead(ctx context.Context, req *logical.Reque
 func (b *backend) pathListRevokedCertsHandler(ctx context.Context, request *logical.Request, data *framework.FieldData) (*logical.Response, error) {
 	sc := b.makeStorageContext(ctx, request.Storage)
 
-	after := data.Get("after").(string)
+	// Serials are listed (and compared with after) in their storage format.
+	after := normalizeSerial(data.Get("after").(string))
 	limit := data.Get("limit").(int)
 
 	revokedCerts, err := sc.listRevokedCertsPage(after, limit)
